@@ -189,9 +189,9 @@ func c12Custom(j *Job) *JobResult {
 
 func c12Sequential(j *Job) *JobResult {
 	res := &JobResult{Name: "seq/" + j.Aux, Outcomes: map[string]int64{}, Complete: true}
-	depth := 6
+	depth := 5
 	if j.Tier == "thorough" {
-		depth = 8
+		depth = 7
 	}
 	alpha := []allocReq{{"alloc", 200}, {"alloc", 513}, {"aligned", 300}, {"copy", 100}, {"alloc", 1100}, {"reset", 0}, {"trim", 4096}}
 	seen := map[string]bool{}
@@ -254,6 +254,7 @@ func c12Sequential(j *Job) *JobResult {
 		}
 	}
 	hung := false
+	var prefixLen int
 	rec = func(hist []allocReq) {
 		for _, r := range alpha {
 			if hung {
@@ -277,15 +278,13 @@ func c12Sequential(j *Job) *JobResult {
 				}
 				continue
 			}
-			// the dirt pattern of memory matters for AllocateAligned-after-Reset: keep the state key
-			// over-fine by including the history's multiset of sizes since creation
 			key += fmt.Sprint(len(h))
-			if seen[key] && len(h) > 3 {
+			if seen[key] && len(h)-prefixLen > 3 {
 				continue
 			}
 			seen[key] = true
 			res.States++
-			if len(h) < depth {
+			if len(h)-prefixLen < depth {
 				rec(h)
 			}
 			if len(h) > res.MaxDepth {
@@ -293,7 +292,34 @@ func c12Sequential(j *Job) *JobResult {
 			}
 		}
 	}
-	rec(nil)
+	// every suffix to the depth bound, from the fresh allocator AND from allocators that have
+	// already grown over several chunks of different shapes and were Reset (requests that
+	// straddle a chunk end and exceed the NEXT EXISTING chunk then skip chunks)
+	G := func(ns ...int) []allocReq {
+		var out []allocReq
+		for _, n := range ns {
+			out = append(out, allocReq{"alloc", n})
+		}
+		return out
+	}
+	prefixes := [][]allocReq{nil,
+		append(G(200, 200, 200, 513, 513), allocReq{"reset", 0}),             // chunks 512, 1024, 2048
+		append(G(200, 200, 200, 513, 513, 1100, 1100), allocReq{"reset", 0}), // + 4096
+		append(G(1100, 1100, 1100), allocReq{"reset", 0}),                    // chunks 512, 2048, 4096
+		G(200, 200, 200, 513), // grown, not reset
+	}
+	for _, pf := range prefixes {
+		prefixLen = len(pf)
+		if _, v, _ := runT(pf); len(v) > 0 && len(pf) > 0 {
+			b, _ := json.Marshal(pf)
+			res.ViolCount++
+			if len(res.Viols) == 0 {
+				res.Viols = append(res.Viols, ViolReport{Viol: Viol{Key: v[0].Key, What: v[0].What + "   history: " + string(b)}, Stable: true, SeqName: string(b)})
+			}
+			continue
+		}
+		rec(pf)
+	}
 	if hung {
 		res.Complete, res.CapHit = false, "stopped at a call that does not return"
 		vsched.Stuck = true
